@@ -524,3 +524,48 @@ try:
     body_lru(2, 0, 1, 0, 2, 1)
 except Exception:
     pass
+
+
+# ------------------------------------------------------------------ one handler function used at two tiers
+
+def h_shared(ty, args, *, handlers):
+    """the SAME function object is the class-level custom= of an enclosing dataclass and a call-level custom="""
+    return Mk(7) if ty is int else NotImplemented
+
+
+class TInner(PaneBase, custom={int: Mk(3)}):
+    n: int = 0
+
+
+class TOuter(PaneBase, custom=h_shared):
+    inner: TInner
+    w: int = 0
+
+
+@obligation(pre="0 <= order <= 1", witnesses=(0,), timeout=240)
+def body_handler_tiers(order: int, i: int, j: int) -> int:
+    """a handler set is (call-level, class-level) -- not a flat sequence: converting TOuter (h_shared as enclosing class handler) and TInner with custom=h_shared (call level) gives the same results in either order"""
+    old_cache = make_converter.cache
+    make_converter.cache = dict(SNAP2)
+    try:
+        for step in ((0, 1) if order == 0 else (1, 0)):
+            if step == 0:
+                r = TOuter.from_data({'inner': {'n': i}, 'w': j})
+                # inner int: TInner's own class handler (3) beats the enclosing class's (7); outer int: its own class handler (7)
+                if not eqv(r.inner.n, ('m', 3, i)) or not eqv(r.w, ('m', 7, j)):
+                    return 2
+            else:
+                r = TInner.from_data({'n': i}, custom=h_shared)
+                # call-level handler (7) beats TInner's class handler (3)
+                if not eqv(r.n, ('m', 7, i)):
+                    return 2
+        return 0
+    finally:
+        make_converter.cache = old_cache
+
+
+try:
+    body_handler_tiers(0, 1, 2)
+    body_handler_tiers(1, 1, 2)
+except Exception:
+    pass
